@@ -32,7 +32,7 @@ man = {
 for p in props:
     pid = p["id"]
     t = targets.get(pid)
-    if not t or t.get("disabled"):
+    if not t or t.get("disabled") or t.get("level_text", "placeholder") == "placeholder":
         man["not_applicable"].append({"property_id": pid, "reason": (t or {}).get("disabled_reason", "monitor not built yet (planned in DESIGN.md §5); nothing is claimed for it")})
         continue
     man["checks"].append({
